@@ -127,6 +127,12 @@ def gen(seed):
             bases = consistent(layers, bases)
         layers.append({'id': i, 'name': nm, 'module': rng.choice(MODS), 'kind': kind,
                        'bases': bases})
+    if rng.random() < 0.2:
+        # class layers deriving from the unit-test layer itself ("quick" layers): ordinary
+        # layers as far as the order goes
+        for L in layers:
+            if L['kind'] == 'class' and not L['bases'] and rng.random() < 0.6:
+                L['unit_base'] = True
     full = ['%s.%s' % (L['module'], L['name']) for L in layers]
     if len(set(full)) != len(full):
         for i, L in enumerate(layers):
@@ -201,6 +207,9 @@ def build(spec, perm):
             if all(b in objs for b in L['bases']):
                 junk.append(object())       # perturb addresses
                 bases = tuple(objs[b] for b in L['bases'])
+                if L.get('unit_base'):
+                    import sys
+                    bases = (sys.modules['zope.testrunner.layer'].UnitTests,)
                 if L['kind'] == 'class':
                     o = type(L['name'], bases or (object,), {'__module__': L['module']})
                 else:
@@ -239,6 +248,7 @@ def run(spec, ctx):
                     args += ['--layer', p]
             if listing:
                 args.append('--list-tests')
+            core.prepare()      # (the layers refer to the runner's UnitTests class)
             suites = build(spec, perm)
             res = core.execute(spec, args, found_suites=suites, label='perm%d' % k)
             results.append(res)
